@@ -665,10 +665,13 @@ class Runner:
             tail = txt[txt.rfind("C04_CASE"):] if "C04_CASE" in txt else txt
             rep = summarise_report(tail)
             rep["rc"] = rc
+            if signal_name(rc):
+                rep["signal"] = signal_name(rc)
+                rep.pop("unknown", None)
             res = {"crash": True, "rc": rc, "report": rep, "err": tail[:1500] + "\n...\n" + tail[-1500:]}
             self.crashes += 1
             self._stop()
-            if not (set(rep) & {"asan", "ubsan"}) and not getattr(self, "_retrying", False):
+            if not (set(rep) & {"asan", "ubsan", "signal"}) and not getattr(self, "_retrying", False):
                 # the child died without a sanitizer / signal report: retry once in a fresh child
                 self._retrying = True
                 try:
@@ -705,6 +708,14 @@ def summarise_report(txt):
     if not out:
         out["unknown"] = txt[-300:]
     return out
+
+
+def signal_name(rc):
+    import signal
+    try:
+        return signal.Signals(-rc).name if isinstance(rc, int) and rc < 0 else None
+    except ValueError:
+        return "signal %d" % -rc
 
 
 def parse_err(txt, fn=None):
@@ -1201,18 +1212,30 @@ class BufSuite:
         return toks
 
     def oracle(self, case):
-        rb = self.ref(case)
         r0 = self.chk.run(dict(case, kind="bufseq"))
-        runs = [("checked", r0)]
+        label = getattr(self, "chk_label", "checked")
+        if getattr(self, "asan_only_if_clean", False):
+            # fallback search (no instrumented build): the plain build is judged completely first (process death, acceptance of
+            # an out-of-range argument, cursor / length / content); the sanitizer build runs only when it is clean there
+            bad = self.judge(case, [(label, r0)])
+            if bad:
+                return bad
+        runs = [(label, r0)]
         if "VERIF_BOUNDS" not in json.dumps(r0):
             ra = self.asan.run(dict(case, kind="bufseq"))
             if not ra.get("skipped"):
                 runs.append(("asan", ra))
+        return self.judge(case, runs)
+
+    def judge(self, case, runs):
         for which, r in runs:
+            if "driver_error" in r and "ops" not in r:
+                return ("%s build: the Buffer driver failed: %s" % (which, r["driver_error"]), {"site": "harness", "via": "Buffer-methods"})
             if r.get("crash"):
                 rep = r.get("report", {})
-                return ("%s build: %s" % (which, json.dumps(rep)),
-                        {"site": rep.get("function", "Buffer"), "via": "Buffer-methods", "sanitizer": rep.get("asan") or rep.get("ubsan")})
+                return ("%s build: the process died (%s) running %s" % (which, json.dumps(rep), json.dumps(case.get("ops"))[:300]),
+                        {"site": rep.get("function", "Buffer"), "via": "Buffer-methods",
+                         "sanitizer": rep.get("asan") or rep.get("ubsan") or rep.get("signal")})
         rb2 = self.ref(case)
         for i, op in enumerate(case["ops"]):
             name, pyargs = op[0], [mkbytes(a) for a in op[1:]]
@@ -1229,16 +1252,14 @@ class BufSuite:
                 got = o["r"]
                 if exp[0] == "exc":
                     if got[0] != "exc" or got[1] not in exp[1].split("|"):
-                        return ("%s build: %s%r expected %s, got %s" % (which, name, op[1:], exp[1], got),
-                                {"site": BUF_FN[name], "via": "Buffer-methods", "kind": "accepted-out-of-range"})
+                        return ("%s build: %s%r on a buffer of %d bytes (cursor %d): expected %s, got %s; cursor afterwards %s" % (
+                            which, name, op[1:], len(rb2.mem), rb2.pos, exp[1], got, o["tell"]),
+                            {"site": BUF_FN[name], "via": "Buffer-methods", "kind": "accepted-out-of-range"})
                 else:
                     if got[0] != "ok":
                         return ("%s build: %s%r expected success, got %s" % (which, name, op[1:], got),
                                 {"site": BUF_FN[name], "via": "Buffer-methods", "kind": "spurious-reject"})
                     val = exp[2]
-                    known = True
-                    if name.startswith("pull") or name in ("data_slice", "data"):
-                        known = True
                     if isinstance(val, bytes):
                         # uninitialised malloc'ed bytes are not comparable: compare lengths, and contents only where written
                         if got[1] != len(val):
@@ -1248,8 +1269,10 @@ class BufSuite:
                         return ("%s build: %s returned %r, expected %r" % (which, name, got[2], val),
                                 {"site": BUF_FN[name], "via": "Buffer-methods", "kind": "value"})
                 if o["tell"] != rb2.pos:
-                    return ("%s build: cursor %d after %s%r, expected %d" % (which, o["tell"], name, op[1:], rb2.pos),
-                            {"site": BUF_FN[name], "via": "Buffer-methods", "kind": "cursor"})
+                    beyond = not (0 <= o["tell"] <= len(rb2.mem))
+                    return ("%s build: cursor %d after %s%r, expected %d%s" % (which, o["tell"], name, op[1:], rb2.pos,
+                                                                               " (outside the buffer of %d bytes)" % len(rb2.mem) if beyond else ""),
+                            {"site": BUF_FN[name], "via": "Buffer-methods", "kind": "cursor-out-of-range" if beyond else "cursor"})
         # written bytes landed where the reference put them (catches in-bounds but misplaced stores)
         for which, r in runs:
             fin = r.get("final")
@@ -1390,6 +1413,45 @@ def gen_buf_case(rng, small=False):
         ops.append([name] + args)
     case["ops"] = ops
     return case
+
+
+def int_boundaries(cap):
+    """Integer argument classes that matter for C conversions (Py_ssize_t 'n' -> int / unsigned / pointer arithmetic), for a
+    buffer of `cap` bytes: 0, +-1, cap+-1, +-2^15, +-2^16, +-2^31, +-2^31+-1, +-2^32, +-2^32+-k, +-2^32+cap(+-1), k*2^32+small,
+    +-2^63, +-2^63-+1, -2^63+k, 2^64 (the last ones are rejected by CPython's own conversion)."""
+    vals = {0, 1, -1, 2, cap - 1, cap, cap + 1, -cap}
+    for p in (15, 16, 31, 32):
+        for s in (1, -1):
+            vals |= {s * (1 << p), s * (1 << p) + 1, s * (1 << p) - 1}
+    for s in (1, -1):
+        for k in (2, 4, 8):
+            vals |= {s * (1 << 32) + k, s * (1 << 32) - k}
+        vals |= {s * (1 << 32) + cap, s * (1 << 32) + cap - 1, s * (1 << 32) + cap + 1, s * (1 << 33), s * (1 << 33) + 1,
+                 s * 3 * (1 << 32) + 2, s * (1 << 48), s * (1 << 62)}
+    vals |= {(1 << 63) - 1, (1 << 63), -(1 << 63), -(1 << 63) + 1, -(1 << 63) + 4, -(1 << 63) + cap, -(1 << 63) - 1,
+             (1 << 63) - 1 - cap, 1 << 64, (1 << 64) + 4, (1 << 64) - 1}
+    return sorted(vals)
+
+
+def gen_buf_boundary(thorough=False):
+    """every integer argument of every Buffer method (seek, pull_bytes, data_slice start / stop) at every class of
+    int_boundaries, on small capacities, alone and followed by the operations that would USE a bogus cursor (push / pull)"""
+    out = []
+    for cap in ((0, 1, 8, 9, 32) if thorough else (0, 1, 8)):
+        half = cap // 2
+        for v in int_boundaries(cap):
+            out.append({"cap": cap, "ops": [["seek", v], ["tell"], ["push_uint8", 1], ["tell"]]})
+            out.append({"cap": cap, "ops": [["seek", v], ["pull_uint8"], ["eof"]]})
+            out.append({"cap": cap, "ops": [["seek", v], ["push_bytes", {"n": 2, "seed": 3}], ["data"]]})
+            out.append({"cap": cap, "ops": [["pull_bytes", v], ["tell"]]})
+            out.append({"cap": cap, "ops": [["seek", half], ["pull_bytes", v], ["tell"], ["pull_uint8"]]})
+            out.append({"cap": cap, "ops": [["data_slice", v, v]]})
+            out.append({"cap": cap, "ops": [["data_slice", v, v + cap]]})
+            out.append({"cap": cap, "ops": [["data_slice", v, v + 1]]})
+            out.append({"cap": cap, "ops": [["data_slice", 0, v]]})
+            out.append({"cap": cap, "ops": [["data_slice", v, cap]]})
+            out.append({"cap": cap, "ops": [["seek", half], ["data_slice", half, v], ["tell"]]})
+    return out
 
 
 def gen_buf_exhaustive(thorough=True):
@@ -1561,6 +1623,142 @@ def run_lifecycle(chk, asan):
     return out
 
 
+def run_fallback_search(ctx, why):
+    """The proof side is broken (translator failed closed / instrumented build does not compile): the search for a CONCRETE
+    failing input still runs, on the PLAIN and on the SANITIZER (ASan+UBSan) build of the current C sources -- they need neither
+    the translator nor the model.  Buffer method sequences are judged by the reference buffer (RefBuffer: an operation that
+    does not fit raises and changes nothing; so `accepted although out of range`, a cursor outside the buffer, a slice longer
+    than the buffer are failures) and by the process itself (a signal / a sanitizer report = the failing call sequence); the
+    connection scenarios by the sanitizers.  Every case runs in a child process that is restarted after a crash, so the call
+    sequence that killed it is known exactly.  -> coverage dict"""
+    import threading
+    t0 = time.time()
+    st = {"reason": why[:300], "buffer_cases": 0, "buffer_failures": 0, "plain_crashes": 0, "sanitizer_crashes": 0,
+          "conn_scenarios": 0, "conn_findings": 0, "signatures": {}, "truncated": None}
+    box = {}
+
+    def mk(kind):
+        try:
+            box[kind] = Build(kind)
+        except Exception as e:  # noqa
+            box[kind] = e
+    ths = [threading.Thread(target=mk, args=(k,)) for k in ("plain", "asan")]
+    for t in ths:
+        t.start()
+    for t in ths:
+        t.join()
+    builds = [b for b in box.values() if isinstance(b, Build)]
+    plain = asan = None
+    samples = []
+    distinct = set()
+    try:
+        for k in ("plain", "asan"):
+            if isinstance(box[k], Exception):
+                # the C sources themselves do not compile: already a build violation of its own
+                ctx.violation("build", "C04 fallback search: the %s build of the current C sources failed: %r" % (k, box[k]), None,
+                              no_input=True)
+                st["truncated"] = "%s build failed" % k
+                return {"evaluations": 0, "distinct_nontrivial": 0, "rule": "fallback search could not start", "samples": [],
+                        "fallback_search": st}
+        plain = Runner(box["plain"], trace=False)
+        asan = Runner(box["asan"])
+        asan.crash_limit = 40
+        st["build_s"] = {"plain": round(box["plain"].build_s, 1), "asan": round(box["asan"].build_s, 1)}
+        bs = BufSuite.__new__(BufSuite)
+        bs.ctx, bs.mi, bs.chk, bs.asan = ctx, None, plain, asan
+        bs.chk_label = "plain"
+        bs.asan_only_if_clean = True
+        shr = corr.Suite(ctx, "c04-buffer-seq", None, None, None, bs.oracle, ops=lambda c: c["ops"],
+                         rebuild=lambda c, ops: dict(c, ops=ops))
+        budget_s = 60.0 * float(os.environ.get("VERIF_BUDGET", "1") or 1) * (6 if ctx.thorough else 1)
+        crash_budget = 80 if not ctx.thorough else 400
+        cases = corr.load_corpus("C04", "c04-buffer-seq") + gen_buf_boundary(ctx.thorough) + gen_buf_exhaustive(ctx.thorough)
+        cases += [gen_buf_case(ctx.rng, small=(i % 3 == 0)) for i in range(ctx.n(1500, 40000))]
+        reported = {}
+
+        def keyof(case, bad):
+            return json.dumps({"site": bad[1].get("site"), "kind": bad[1].get("kind"),
+                               "died": " ".join(str(bad[1].get("sanitizer") or "").split()[:3]) or None,
+                               "first_op": (case["ops"][0][0] if bad[1].get("sanitizer") and case.get("ops") else None)}, sort_keys=True)
+        for case in cases:
+            if time.time() - t0 > budget_s:
+                st["truncated"] = "time budget (%d s) after %d buffer cases" % (budget_s, st["buffer_cases"])
+                break
+            if plain.crashes >= crash_budget:
+                st["truncated"] = "crash budget (%d child processes killed) after %d buffer cases" % (crash_budget, st["buffer_cases"])
+                break
+            st["buffer_cases"] += 1
+            distinct.add(json.dumps(case, sort_keys=True))
+            if len(samples) < 3:
+                samples.append({"suite": "fallback-buffer-seq", "case": _short(case)})
+            try:
+                bad = bs.oracle(case)
+            except Exception as e:  # noqa -- the driver itself must not stop the search
+                bad = ("buffer oracle raised %r" % (e,), {"site": "harness", "via": "Buffer-methods"})
+            if not bad:
+                continue
+            st["buffer_failures"] += 1
+            key = keyof(case, bad)
+            st["signatures"][key] = st["signatures"].get(key, 0) + 1
+            if key in reported:
+                continue
+            reported[key] = True
+
+            def same(x, key=key):
+                b = corr._safe(bs.oracle, x)
+                return bool(b) and keyof(x, b) == key
+            small = shr.shrink(case, same, max_steps=12 if bad[1].get("sanitizer") else 40)
+            what, sig = corr._safe(bs.oracle, small) or bad
+            conf = asan.run(dict(small, kind="bufseq"), timeout=120)
+            confirm = conf.get("report") if conf.get("crash") else (
+                "skipped (crash limit)" if conf.get("skipped") else "sanitizer child survived; per-op results: %s"
+                % json.dumps([[o["r"], o["tell"]] for o in conf.get("ops", [])])[:600])
+            ctx.violation("impl-violation", "c04-buffer-seq (fallback search, no model): " + what, _short(dict(small, kind="bufseq"), 3000),
+                          signature=dict(sig, via="Buffer-methods"), extra={"sanitizer_on_minimised_case": confirm,
+                                                                            "proof_side": "unavailable: " + why[:300]})
+        st["plain_crashes"], st["sanitizer_crashes"] = plain.crashes, asan.crashes
+        # connection scenarios (network datagrams, max_datagram_size settings) on both builds
+        seen = set()
+        asan.crash_limit = 1 << 30
+        for case in [dict(c, kind="conn") for c in corr.load_corpus("C04", "c04-conn")] + gen_conn_cases(ctx):
+            if time.time() - t0 > 2.2 * budget_s:
+                st["truncated"] = (st["truncated"] or "") + " conn scenarios: time budget"
+                break
+            st["conn_scenarios"] += 1
+            distinct.add(json.dumps(case, sort_keys=True, default=str)[:2000])
+            r = plain.run(case, timeout=300)
+            results = [("plain", r)]
+            found = conn_findings(case, results)
+            if not found:
+                results.append(("sanitizer", asan.run(case, timeout=300)))
+                found = conn_findings(case, results)
+            for what, sig, detail in found:
+                st["conn_findings"] += 1
+                k = json.dumps({"site": sig.get("site"), "via": sig.get("via"), "rw": sig.get("rw")}, sort_keys=True)
+                if k in seen:
+                    continue
+                seen.add(k)
+                small = minimise_conn(case, dict(sig, detector="sanitizer"), plain, asan)
+                ctx.violation("impl-violation", "c04-conn (fallback search, no model): " + what, _short(small, 3000),
+                              signature={"site": sig.get("site"), "via": sig.get("via"), "rw": sig.get("rw")}, extra={"detail": detail})
+        st["wall_s"] = round(time.time() - t0, 1)
+        return {"evaluations": st["buffer_cases"] + st["conn_scenarios"], "distinct_nontrivial": len(distinct),
+                "rule": "FALLBACK (translator / instrumented build unavailable): Buffer method sequences (integer boundary classes of every "
+                        "integer argument on capacities 0..8, small-scope exhaustive, random) judged by the reference buffer and by process "
+                        "death / sanitizer reports on the plain and the ASan+UBSan build; connection scenarios on both builds; "
+                        "distinct = distinct case, every case performs at least one native call",
+                "samples": samples, "fallback_search": st}
+    finally:
+        for r in (plain, asan):
+            if r is not None:
+                try:
+                    r.close()
+                except Exception:
+                    pass
+        for b in builds:
+            b.close()
+
+
 def setup_builds(ctx):
     g = load_c2vc()
     model, trs, text, summary = g.build(core.REPO)
@@ -1600,7 +1798,12 @@ def run(ctx):
             g, model, chk_b, asan_b, chk, asan = setup_builds(ctx)
         except Exception as e:  # translator / instrumented build failure: fail closed, but still look for an input
             ctx.violation("build", "C04 translator or instrumented/sanitizer build failed: %r" % (e,), None, no_input=True)
-            raise
+            # the proof side is gone for this tree; the implementation-level search (plain + sanitizer build of the same C
+            # sources, Buffer method-sequence oracle, connection scenarios) still runs: a crash / sanitizer report /
+            # out-of-range acceptance is reported as impl-violation with the concrete call sequence
+            cov = run_fallback_search(ctx, repr(e))
+            extra.update({k: v for k, v in cov.items() if k == "fallback_search"})
+            return cov
         builds = [chk_b, asan_b]
         mi = ModelInfo()
         nvc = sum(1 for f in mi.j["functions"] for e in f["events"] if e["t"] == "acc")
@@ -1628,6 +1831,9 @@ def run(ctx):
         # ---- B: Buffer method sequences
         bs = BufSuite(ctx, mi, chk, asan)
         bcases = corr.load_corpus("C04", "c04-buffer-seq") + gen_buf_exhaustive(ctx.thorough)
+        bnd = gen_buf_boundary(ctx.thorough)
+        extra["buffer_boundary_cases"] = len(bnd)
+        bcases += bnd
         bcases += [gen_buf_case(ctx.rng, small=(i % 3 == 0)) for i in range(ctx.n(1500, 40000))]
         chk.prefetch([dict(c, kind="bufseq") for c in bcases], w)
         asan.prefetch([dict(c, kind="bufseq") for c in bcases if "VERIF_BOUNDS" not in json.dumps(chk.run(dict(c, kind="bufseq")))], w)
@@ -1740,8 +1946,39 @@ def _short(c, limit=900):
     return json.loads(s) if len(s) <= limit else s[:limit] + "..."
 
 
+def replay_fallback(ctx, rep, why):
+    """replay on the plain and the sanitizer build (the translator / instrumented build is unavailable for this tree)"""
+    case = rep["case"]
+    if isinstance(case, str):
+        return {"error": "case was truncated in the replay file"}
+    kind = case.get("kind") or ("bufseq" if "ops" in case else "call")
+    builds, runners, out = [], [], {"proof_side": "unavailable: " + why[:300]}
+    try:
+        for which, bk in (("plain", "plain"), ("sanitizer", "asan")):
+            b = Build(bk)
+            builds.append(b)
+            rn = Runner(b)
+            runners.append(rn)
+            r = rn.run(dict(case, kind=kind), timeout=300)
+            out[which] = {k: (v if k != "err" else v[-1500:]) for k, v in r.items()}
+        if kind == "bufseq":
+            bs = BufSuite.__new__(BufSuite)
+            bs.ctx, bs.mi, bs.chk, bs.asan = ctx, None, runners[0], runners[1]
+            bs.chk_label, bs.asan_only_if_clean = "plain", True
+            out["oracle"] = bs.oracle(dict(case, kind=kind))
+        return out
+    finally:
+        for rn in runners:
+            rn.close()
+        for b in builds:
+            b.close()
+
+
 def replay(ctx, rep):
-    g, model, chk_b, asan_b, chk, asan = setup_builds(ctx)
+    try:
+        g, model, chk_b, asan_b, chk, asan = setup_builds(ctx)
+    except Exception as e:  # noqa -- translator / instrumented build failed on this tree
+        return replay_fallback(ctx, rep, repr(e))
     try:
         case = rep["case"]
         if isinstance(case, str):
